@@ -1,6 +1,6 @@
 import ZI.AttrsWorld
 /-! Driver for the attribute layer (C15): `iface <i> <bases> <attrs n:d,…> <tags t:v,…> <invs k:f,…>` (`-` = empty),
-    `set <i> <bases>`, `get <i> <name>`, `q <i>` (every accessor family, in a canonical rendering). -/
+    `set <i> <bases>`, `settag <i> <tag> <value>` (`setTaggedValue` on a live interface), `get <i> <name>`, `q <i>` (every accessor family, in a canonical rendering). -/
 namespace Drv.Attrs
 open ZI.AttrsW ZI.Upd ZI.Attrs ZI.Graph2
 def lst (s : String) : List String := if s == "-" then [] else s.splitOn ","
@@ -40,6 +40,7 @@ partial def loop (h : IO.FS.Stream) (s : St) : IO Unit := do
   | ["set", i, bs] =>
       let bases := (lst bs).map String.toNat!
       IO.println "ok"; loop h { s with w := setBases s.w i.toNat! (if bases.isEmpty then [0] else bases) }
+  | ["settag", i, t, v] => IO.println "ok"; loop h { s with w := setTag s.w i.toNat! t v.toNat! }
   | ["get", i, n] =>
       let (w, r) := get s.w i.toNat! n
       IO.println (match r with | some d => toString d | none => "N"); loop h { s with w := w }
